@@ -20,7 +20,7 @@ RULE = (
     "an id., and as a page range) x 3 pools."
 )
 ASSUMPTIONS = [
-    "five pre-validated value pools of party names / reporters / pages (all enumerated in both tiers)",
+    "six pre-validated value pools of party names / reporters / pages (all enumerated in both tiers)",
     "id. offsets {+2, -5, +500}: +2 is within the opinion, -5 before its first page, +500 implausibly far",
     "nothing is asserted about ambiguous references (C07 covers them) nor about an id. that follows one",
 ]
@@ -33,6 +33,8 @@ POOLS = [
     [("Adams", "Baker", "100", "F.2d", "200"), ("Clark", "Dunn", "100", "F.3d", "200"), ("Evans", "Flynn", "100", "F.", "350")],
     # two-letter party names (shorter than the three characters a *reference* citation needs; short forms and supra do not have that floor)
     [("Wu", "Li", "13", "Cal. 3d", "804"), ("Smith", "Ng", "13", "Cal. 3d", "100"), ("Ito", "Oz", "2", "F.2d", "20")],
+    # variation spellings of unambiguous reporters, dated before / after the edition's recorded range in reporters-db
+    [("Marbury", "Madison", "5", "U. S.", "137", "1803"), ("Hylton", "Ware", "5", "U. S.", "199", "1796"), ("Adams", "Baker", "900", "F.Supp.", "100", "1995")],
 ]
 NCASES = 3
 NL_MAX = 4  # scenarios of <= 4 events are also rendered one sentence per line
@@ -97,14 +99,15 @@ def render(events, cases, sep=" "):
     for ev in events:
         k = ev[0]
         if k == "full":
-            p, d, v, rep, pg = cases[ev[1]]
-            parts.append(f"{p} v. {d}, {v} {rep} {pg} (1990).")
+            p, d, v, rep, pg = cases[ev[1]][:5]
+            yr = cases[ev[1]][5] if len(cases[ev[1]]) > 5 else "1990"
+            parts.append(f"{p} v. {d}, {v} {rep} {pg} ({yr}).")
         elif k == "short":
-            p, d, v, rep, pg = cases[ev[1]]
+            p, d, v, rep, pg = cases[ev[1]][:5]
             nm = f"{d}, " if ev[2] else "See "
             parts.append(f"{nm}{v} {rep} at {int(pg) + 2}.")
         elif k == "supra":
-            p, d, v, rep, pg = cases[ev[1]]
+            p, d, v, rep, pg = cases[ev[1]][:5]
             parts.append(f"{d}, supra, at {int(pg) + 3}.")
         elif k == "id":
             parts.append(f"Id. at {ev[1]}.")
@@ -175,7 +178,7 @@ IDPIN_CTX = [
 def idpin_texts(pool):
     """Every first page of a boundary set x EVERY pin cite within the opinion (page .. page+150), every pin before the first
     page down to page-12, and pins implausibly far beyond it; the id. directly follows a resolved citation of the case."""
-    p, d, v, rep, _ = POOLS[pool][0]
+    p, d, v, rep, _ = POOLS[pool][0][:5]
     for pg in IDPIN_PAGES:
         full = f"{p} v. {d}, {v} {rep} {pg} (1990)."
         pins = list(range(max(1, pg - 12), pg + 151)) + [pg + 501, pg + 1000, pg * 10 + 5000, 10 * (pg + 150) + 9]
